@@ -151,6 +151,7 @@ fn dump_tree(c: &Command) -> String {
             ("term", a.get_value_terminator().is_some()),
             ("delim", a.get_value_delimiter().is_some()),
             ("positional", a.is_positional()),
+            ("append", matches!(a.get_action(), clap::ArgAction::Append)),
         ] {
             if b {
                 s.push(' ');
